@@ -61,8 +61,9 @@ def trees() -> List[Tuple[str, Program, Dict[str, List[Optional[str]]]]]:
         Cfg("S", "string", prompt="s", defaults=[(L('"d\\"q"'), None)]),
         Cfg("F", "float", prompt="f", defaults=[(L("1.5"), None)]),
         Cfg("E", "int", prompt="e"),
+        Cfg("Z", "bool", prompt="z"),  # the LAST written option: when it goes y -> n the header / auto.conf lose their last line only
     ])
-    d1 = {"B": [None, "n", "y"], "BH": [None, "n"], "I": [None, "7"], "H": [None, "2A"], "S": [None, 'a"b\\c']}
+    d1 = {"B": [None, "n", "y"], "BH": [None, "n"], "I": [None, "7"], "H": [None, "2A"], "S": [None, 'a"b\\c'], "Z": [None, "y"]}
     t2 = Program(children=[
         Cfg("B", "bool", prompt="b", defaults=[(L("y"), None)]),
         Menu(title="m", visible_if=[S("B")], children=[Cfg("BH", "bool", prompt="bh"), Cfg("I", "int", prompt="i", defaults=[(L("5"), None)]), Cfg("H", "hex", prompt="h", defaults=[(L("0x1f"), None)])]),
@@ -84,6 +85,7 @@ def trees() -> List[Tuple[str, Program, Dict[str, List[Optional[str]]]]]:
 
 def rename_files(tier: str) -> Iterator[Tuple[int, ...]]:
     n = len(ALPHABET)
+    yield ()  # no rename file at all: no deprecated block after the options
     for k in (1, 2):
         yield from itertools.permutations(range(n), k)
     if tier == "quick":
@@ -204,11 +206,12 @@ def norm(typ: str, raw: Optional[str], fmt: str) -> Any:
     return raw
 
 
-def run_case(files, tree: str, rf: Tuple[int, ...], names: List[str], assign: Tuple[Optional[str], ...], r: common.Result) -> None:
+def run_case(files, tree: str, rf: Tuple[int, ...], names: List[str], assign: Tuple[Optional[str], ...], r: common.Result, previous=None) -> None:
     import kconfgen.core as kg
 
     rename_text = "".join(ALPHABET[i] + "\n" for i in rf)
-    case = {"tree": tree, "files": files, "renames": list(rf), "rename_text": rename_text, "names": names, "assign": list(assign)}
+    # `previous`: the configuration whose outputs are lying at the same paths when this one is generated (a rebuild)
+    case = {"tree": tree, "files": files, "renames": list(rf), "rename_text": rename_text, "names": names, "assign": list(assign), "previous": list(previous) if previous is not None else None}
     label = f"[{tree} renames={[ALPHABET[i] for i in rf]} cfg={dict((n, v) for n, v in zip(names, assign) if v is not None)}]"
     c = impl.core()
 
@@ -371,13 +374,25 @@ def run_item(item) -> common.Result:
     names = list(item["dom"])
     doms = [item["dom"][n] for n in names]
     for rf in item["renames"]:
-        for assign in itertools.product(*doms):
-            run_case(item["files"], item["tree"], tuple(rf), names, assign, r)
+        # every configuration is generated over the outputs of its predecessor AND (second pass, reverse order) of its
+        # successor in the enumeration: a regeneration must leave no trace of the previous build in any format
+        assigns = list(itertools.product(*doms))
+        prev = None
+        for f in ("config", "header", "cmake", "json"):  # a new rename file starts from an empty output directory
+            try:
+                os.unlink(os.path.join(impl.wdir(), f"c07.{f}"))
+            except OSError:
+                pass
+        for assign in assigns + assigns[::-1][1:]:
+            run_case(item["files"], item["tree"], tuple(rf), names, assign, r, previous=prev)
+            prev = assign
     r.sample = {"tree": item["tree"], "rename_file": [ALPHABET[i] for i in item["renames"][0]], "configurations": len(list(itertools.product(*doms)))}
     return r
 
 
 def replay(case) -> List[dict]:
     r = common.Result()
-    run_case(case["files"], case["tree"], tuple(case["renames"]), case["names"], tuple(case["assign"]), r)
+    if case.get("previous") is not None:
+        run_case(case["files"], case["tree"], tuple(case["renames"]), case["names"], tuple(case["previous"]), common.Result())
+    run_case(case["files"], case["tree"], tuple(case["renames"]), case["names"], tuple(case["assign"]), r, previous=case.get("previous"))
     return r.viols
